@@ -85,6 +85,11 @@ class PROP(Prop):
                 W1 = rng.choice([("a%d," % k if k else "") + "e:TimedOut", ("a%d," % k if k else "") + "p"])
                 op1 = cligen.call_op(first, W=W1, drop="0" if W1.endswith("p") else "-")
                 big = rng.choice([("WMR", 7, [1] * rng.randrange(124, 140)), ("WMC", 7, [True] * rng.randrange(1977, 2100)), ("CU", 0x41, bytes(rng.randrange(253, 300))), ("RWMR", 1, 1, 2, [5] * rng.randrange(122, 130))])
+                # ... and a request that fits (often a maximal one) goes out intact behind those unsent bytes: the stream is frame after frame
+                fit = rng.choice([("WMR", 7, [rng.randrange(65536) for _ in range(rng.choice([1, 122, 123]))]), ("CU", 0x41, bytes(rng.choice([0, 251, 252]))), ("RHR", 1, 125)])
+                if proto == "tcp" or cligen.rtu_supported_req(fit):
+                    f1 = cligen.frame(proto, 0, slave, mb.spec_req_pdu(first)); f2 = cligen.frame(proto, 1, slave, mb.spec_req_pdu(fit))
+                    cs.append(Case(cligen.cli_line(proto, slave, [op1, cligen.call_op(fit, R="e:Other")]), {"k": "fit_after_pending", "proto": proto, "want": (f1 + f2).hex(), "kind": fit[0], "n": 1, "limit": 1}, "debug"))
                 # the transport would accept everything now: whatever the refused call writes is a violation
                 cs.append(Case(cligen.cli_line(proto, slave, [op1, cligen.call_op(big, typed=(big[0] != "CU" and rng.random() < 0.5))]), {"k": "refused_after_pending", "proto": proto, "accepted": k, "kind": big[0], "n": 1, "limit": 0}, "debug"))
         return cs
@@ -96,6 +101,9 @@ class PROP(Prop):
         m = c.meta
         if "PANIC" in (c.impl or "") or "CRASH" in (c.impl or ""):
             return "panic"
+        if m["k"] == "fit_after_pending":
+            got = b"".join(cligen.res_and_w(x)[1] for x in cligen.split_results(c.impl)).hex()
+            return None if got == m["want"] else "a request sent behind bytes an earlier call left unsent: the transport received %s..., the two frames are %s..." % (got[:64], m["want"][:64])
         if m["k"] == "refused_after_pending":
             rs = cligen.split_results(c.impl)
             r1, w1 = cligen.res_and_w(rs[1]) if len(rs) > 1 else ("", b"")
